@@ -207,6 +207,49 @@ impl Sut {
         format!("out {} {}", hexd(&out), if c.closed { "closed" } else { "open" })
     }
 
+    /// a second connection: send `bytes`, half-close, read to the end
+    pub fn obs(&mut self, bytes: &[u8]) -> String {
+        if self.server.is_none() {
+            self.server = Some(crate::net::start_server(self.store_dyn.clone(), self.limit, 64, 30));
+        }
+        let mut c = crate::net::Conn::open(self.server.as_ref().unwrap().port);
+        let mut acc = vec![];
+        c.send(bytes);
+        c.half_close();
+        c.read_to_end(&mut acc, std::time::Duration::from_secs(8));
+        format!("obs {}", hexd(&acc))
+    }
+
+    /// send everything at once on a fresh connection and abort it without reading (`rst`: SO_LINGER 0 close;
+    /// `close`: shutdown both ways first). Returns when the store has stopped changing.
+    pub fn blast(&mut self, kind: &str, bytes: &[u8]) -> String {
+        if self.server.is_none() {
+            self.server = Some(crate::net::start_server(self.store_dyn.clone(), self.limit, 64, 30));
+        }
+        self.conn = None;
+        let mut c = crate::net::Conn::open(self.server.as_ref().unwrap().port);
+        c.send(bytes);
+        if kind == "close" {
+            let _ = c.sock.shutdown(std::net::Shutdown::Both);
+        }
+        c.reset();
+        // settle: the dump must be stable for 60 ms (the server task ends on the reset or after the last request)
+        let mut last = self.dump();
+        let mut stable = 0;
+        let t0 = std::time::Instant::now();
+        while stable < 6 && t0.elapsed() < std::time::Duration::from_secs(5) {
+            std::thread::sleep(std::time::Duration::from_millis(10));
+            let d = self.dump();
+            if d == last {
+                stable += 1;
+            } else {
+                stable = 0;
+                last = d;
+            }
+        }
+        "ok".to_string()
+    }
+
     pub fn set_now(&self, t: u64) {
         self.clock.0.store(t, Ordering::SeqCst);
     }
